@@ -2,7 +2,7 @@
    Proved so far; the composition over whole pictures is tied by execution against the reference
    reconstruction (see DESIGN.md). *)
 From H263V Require Import base.Prelude spec.SpecRecon model.Types model.Reader model.Header model.Syntax model.Recon model.Decoder proofs.MvSpec.
-From H263V Require Import model.Tables spec.SpecTables proofs.VlcTables proofs.PlaneShape proofs.GatherSpec.
+From H263V Require Import model.Tables spec.SpecTables proofs.VlcTables proofs.PlaneShape proofs.GatherSpec spec.SpecHeader proofs.BlockRoundTrip proofs.MacroblockRoundTrip proofs.PictureRoundTrip.
 
 (* each vector component = predictor + differential reduced modulo 64 half samples into -32..31 (= -16..15.5) *)
 Theorem C03_vector_wrap : forall cur running p d is_x,
@@ -58,7 +58,21 @@ Example C03_block_prediction_example :
   pred_spec src 3 2 (2 * 2 + 1) (2 * 0 - 1) = 40 /\ pred_spec src 3 2 (2 * 0 + 1) (2 * 1 - 1) = 35.
 Proof. cbv zeta. split; vm_compute; reflexivity. Qed.
 
+(* the parser round trip of C02_picture_body_roundtrip read for predicted pictures: COD, the Table 8 types (one and four
+   vectors, with and without DQUANT, intra macroblocks inside predicted pictures), differentials by Table 14, not-coded
+   macroblocks and stuffing: the loop returns exactly the vectors, types and coefficient blocks `pure_loop` computes from the
+   field values (median prediction and wrap: C03_median / C03_vector_wrap; C12_candidates) *)
+Theorem C03_picture_body_roundtrip : forall o np running mpl total levw,
+  let ipic := is_iframe (picture_type (d_header np)) in
+  let v1 := sorenson o && (match version (d_header np) with Some 1 => true | _ => false end) in
+  simple_picture (d_header np) running ->
+  forall fms fuel st rest pos, Forall (wf_full ipic v1) fms -> loop_ok fms (zlength (l_types st)) total -> (length fms < fuel)%nat ->
+  l_reader st = mkReader (enc_fulls ipic v1 fms ++ rest) pos ->
+  exists pos', mb_loop fuel o np running mpl total levw st = rmap (pure_loop np running mpl levw fms st) (mkReader rest pos').
+Proof. exact mb_loop_roundtrip. Qed.
+
 Print Assumptions C03_vector_wrap.
+Print Assumptions C03_picture_body_roundtrip.
 Print Assumptions C03_block_prediction.
 Print Assumptions C03_code_tables.
 Print Assumptions C03_chroma_vector_table.
